@@ -177,7 +177,8 @@ def gen_scenario(rng, tier):
         strategy = strategy or rng.choice(["in memory", "on disk"])
         if via == "url":
             strategy = "on disk"     # what get_accessor_for_url gives
-        orders.append({"perm": perm, "strategy": strategy, "via": via})
+        orders.append({"perm": perm, "strategy": strategy, "via": via,
+                       "exit_flush": rng.random() < 0.15})
 
     add(asc, "in memory")
     add(asc[::-1], "on disk")
@@ -278,7 +279,7 @@ def chunk_dims(sc, pos):
     return (c[1] - c[0], c[3] - c[2], c[5] - c[4])
 
 
-def write_order(fs, sc, chunks, order, res, tag):
+def write_order(fs, sc, chunks, order, res, tag, explicit_close=True):
     """Deliver the chunk set in one order into a fresh FS and close.
     Returns True if the writer completed."""
     import numpy as np
@@ -343,6 +344,8 @@ def write_order(fs, sc, chunks, order, res, tag):
                         f"{tag}: store of chunk {(x, y, z)} ({nb} B) raised "
                         f"{v!r}", key=f"C05/store-fails/{excname(v)}")
             return False
+    if not explicit_close:
+        return True         # the accessor's exit handler has to flush
     st, v = sut(acc.close)
     if st == "exc":
         res.violate("C05/store-fails", f"{tag}: close() raised {v!r}",
@@ -476,7 +479,26 @@ def execute(trace, pid):
                f"perm {order['perm'][:8]}{'...' if len(chunks) > 8 else ''})")
         log.add("ORDER", oi, order["strategy"], order["via"])
         with mounted(fs):
-            done = write_order(fs, sc, chunks, order, res, tag)
+            if order.get("exit_flush") and not sc.get("second_session"):
+                # the writer never calls close(): like the CLI it relies on
+                # the exit handler the accessor registered
+                from sim import simproc
+                box = []
+                pr = simproc.run_process(
+                    lambda: box.append(write_order(
+                        fs, sc, chunks, order, res, tag,
+                        explicit_close=False)) and None, fs=fs)
+                done = bool(box and box[0]) and pr.exc is None
+                res.probe("flushed_by_exit_handler")
+                if pr.handler_errors:
+                    res.violate("C05/store-fails",
+                                f"{tag}: the exit handler that flushes the "
+                                f"writer raised {pr.handler_errors}",
+                                key="C05/close-fails/exit-handler/"
+                                + pr.handler_errors[0])
+                    done = False
+            else:
+                done = write_order(fs, sc, chunks, order, res, tag)
             if done:
                 h = fs.tree_hash(DS)
                 log.add("TREE", h)
